@@ -674,22 +674,34 @@ func (dr *dirRepo) gc() error {
 	// prune an empty repo dir and mark the repo as empty if successful
 	if *dr.conf.Storage.GC.EmptyRepo && len(dr.index.Manifests) == 0 && dr.uploads.IsEmpty() {
 		errDir := func() error {
-			errs := []error{}
-			for _, dir := range []string{
-				filepath.Join(dr.path, uploadDir),
-				filepath.Join(dr.path, blobsDir, "sha256"),
-				filepath.Join(dr.path, blobsDir, "sha512"),
-				filepath.Join(dr.path, blobsDir),
-				filepath.Join(dr.path, indexFile),
-				filepath.Join(dr.path, layoutFile),
-				filepath.Join(dr.path),
-			} {
-				err := os.Remove(dir)
+			rm := func(name string) error {
+				err := os.Remove(name)
 				if err != nil && !errors.Is(err, fs.ErrNotExist) {
-					errs = append(errs, err)
+					return err
+				}
+				return nil
+			}
+			// remove the upload and blob directories first, stop if anything remains (e.g. recently uploaded blobs)
+			dirs := []string{filepath.Join(dr.path, uploadDir)}
+			if algoS, err := os.ReadDir(filepath.Join(dr.path, blobsDir)); err == nil {
+				for _, algo := range algoS {
+					dirs = append(dirs, filepath.Join(dr.path, blobsDir, algo.Name()))
 				}
 			}
-			return errors.Join(errs...)
+			dirs = append(dirs, filepath.Join(dr.path, blobsDir))
+			for _, dir := range dirs {
+				if err := rm(dir); err != nil {
+					return err
+				}
+			}
+			// the layout is only removed once it has no content, after that the repo needs to be initialized again
+			err := errors.Join(rm(filepath.Join(dr.path, indexFile)), rm(filepath.Join(dr.path, layoutFile)))
+			if err != nil {
+				return err
+			}
+			dr.exists = false
+			// the directory itself may contain nested repositories
+			return rm(dr.path)
 		}()
 		if errDir == nil {
 			dr.exists = false
